@@ -292,7 +292,11 @@ func (vs *VerifStore) Dump() string {
 					exp = sk.expiresAt.UnixNano()
 				}
 			}
-			lines = append(lines, fmt.Sprintf("%x %s id=%d exp=%d %s", item.key, storeKeyType(sk.flags), sk.id, exp, verifPayload(sk)))
+			hexKey := fmt.Sprintf("%x", item.key)
+			if hexKey == "" {
+				hexKey = "-"
+			}
+			lines = append(lines, fmt.Sprintf("%s %s id=%d exp=%d %s", hexKey, storeKeyType(sk.flags), sk.id, exp, verifPayload(sk)))
 		}
 		sort.Strings(lines)
 		for _, line := range lines {
